@@ -9,6 +9,7 @@ import (
 	"os"
 	"runtime/pprof"
 	"strconv"
+	"strings"
 	"time"
 
 	"github.com/spf13/pflag"
@@ -321,7 +322,15 @@ func mainImplementation(ctx context.Context, stdout, stderr io.Writer, args []st
 		if err != nil {
 			return fmt.Errorf("resolving command-line argument %q: %w", arg, err)
 		}
-		roots = append(roots, sizes.NewExplicitRoot(arg, oid))
+		name := arg
+		if strings.HasPrefix(arg, ":") {
+			// Revisions like ':/<text>' or ':<n>:<path>' cannot be
+			// extended with '^{tree}' or ':<path>', so refer to the
+			// object by its ID when describing objects found via
+			// this root.
+			name = oid.String()
+		}
+		roots = append(roots, sizes.NewExplicitRoot(name, oid))
 	}
 
 	historySize, err := sizes.ScanRepositoryUsingGraph(
